@@ -17,7 +17,7 @@ import (
 func genC06(r *kernel.Rand, tier string) *kernel.Scenario {
 	sc := &kernel.Scenario{Config: map[string]int64{}}
 	c := sc.Config
-	c["ser"] = 0
+	c["ser"] = int64(r.Intn(2))
 	c["fifo"] = int64(r.Intn(2))
 	c["async_bus"] = int64(r.Intn(2))
 	c["bus_max_us"] = int64([]int{100, 400, 2000}[r.Intn(3)])
